@@ -415,6 +415,7 @@ func init() {
 			}
 			return 5
 		}, Run: run, Replay: replay, Parallel: true},
-			{Name: "decision", Shards: func(string) int { return 4 }, Run: runDecision, Replay: replayDecision}},
+			{Name: "decision", Shards: func(string) int { return 4 }, Run: runDecision, Replay: replayDecision},
+			{Name: "package", Shards: func(string) int { return 3 }, Run: runPackage, Replay: replayPackage, Parallel: true}},
 	})
 }
